@@ -442,3 +442,40 @@ func NilEdges(v ssa.Value) (isNil, nonNil map[Edge]bool) {
 	}
 	return
 }
+
+// LoopBody returns the natural loop of header h: h plus every block that can
+// reach the source of one of h's back edges without passing through h.
+func LoopBody(h *ssa.BasicBlock) map[*ssa.BasicBlock]bool {
+	body := map[*ssa.BasicBlock]bool{h: true}
+	var stack []*ssa.BasicBlock
+	for e := range BackEdgesTo(h) {
+		if !body[e.From] {
+			body[e.From] = true
+			stack = append(stack, e.From)
+		}
+	}
+	for len(stack) > 0 {
+		b := stack[len(stack)-1]
+		stack = stack[:len(stack)-1]
+		for _, p := range b.Preds {
+			if !body[p] {
+				body[p] = true
+				stack = append(stack, p)
+			}
+		}
+	}
+	return body
+}
+
+// InnermostLoop returns the header of the smallest natural loop containing b (nil if none).
+func InnermostLoop(fn *ssa.Function, b *ssa.BasicBlock) *ssa.BasicBlock {
+	var best *ssa.BasicBlock
+	bestSize := 1 << 30
+	for _, h := range LoopHeaders(fn) {
+		body := LoopBody(h)
+		if body[b] && len(body) < bestSize {
+			best, bestSize = h, len(body)
+		}
+	}
+	return best
+}
